@@ -35,6 +35,12 @@ def is_self_call(e, meth, args):
             and not e.keywords)
 
 
+def is_iter_finditer(e):
+    """iter(self.finditer(value))"""
+    return (isinstance(e, ast.Call) and isinstance(e.func, ast.Name) and e.func.id == "iter" and len(e.args) == 1 and not e.keywords
+            and is_self_call(e.args[0], "finditer", ["value"]))
+
+
 def query_method(fn):
     """-> Coq term of type entry for a JSONPathQuery method"""
     st = body_stmts(fn)
@@ -47,7 +53,25 @@ def query_method(fn):
         if isinstance(e, ast.Call) and isinstance(e.func, ast.Name) and e.func.id == "JSONPathNodeList" and len(e.args) == 1 \
                 and is_self_call(e.args[0], "finditer", ["value"]):
             return "EListOf EIter"
+        # return next(iter(self.finditer(value)), None)     (iter() is needed: finditer returns a list for "$")
+        if isinstance(e, ast.Call) and isinstance(e.func, ast.Name) and e.func.id == "next" and len(e.args) == 2 and not e.keywords \
+                and isinstance(e.args[1], ast.Constant) and e.args[1].value is None and is_iter_finditer(e.args[0]):
+            return "EFirstOrNone EIter"
         raise Unsupported("%s: unexpected return %s" % (fn.name, dump(e)))
+    # it = iter(self.finditer(value)); return next(it, None)
+    if len(st) == 2 and isinstance(st[0], ast.Assign) and len(st[0].targets) == 1 and isinstance(st[0].targets[0], ast.Name) and is_iter_finditer(st[0].value) \
+            and isinstance(st[1], ast.Return):
+        e = st[1].value; v = st[0].targets[0].id
+        if isinstance(e, ast.Call) and isinstance(e.func, ast.Name) and e.func.id == "next" and len(e.args) == 2 and not e.keywords \
+                and isinstance(e.args[0], ast.Name) and e.args[0].id == v and isinstance(e.args[1], ast.Constant) and e.args[1].value is None:
+            return "EFirstOrNone EIter"
+        raise Unsupported("%s: unexpected two-statement body" % fn.name)
+    # for node in self.finditer(value): return node     followed by   return None
+    if len(st) in (1, 2) and isinstance(st[0], ast.For) and isinstance(st[0].target, ast.Name) and is_self_call(st[0].iter, "finditer", ["value"]) \
+            and len(st[0].body) == 1 and isinstance(st[0].body[0], ast.Return) and isinstance(st[0].body[0].value, ast.Name) \
+            and st[0].body[0].value.id == st[0].target.id and not st[0].orelse \
+            and (len(st) == 1 or (isinstance(st[1], ast.Return) and (st[1].value is None or (isinstance(st[1].value, ast.Constant) and st[1].value.value is None)))):
+        return "EFirstOrNone EIter"
     # try: return next(iter(self.finditer(value)))  except StopIteration: return None
     if len(st) == 1 and isinstance(st[0], ast.Try):
         t = st[0]
